@@ -28,10 +28,14 @@ RULE = ("one unit = one writer configuration (FileAccessor flat/deep x gzip "
         "(thorough). In every state fetch_file / fetch_chunk / file_exists "
         "of every name through accessors of all 4 layouts are compared with "
         "a last-write-wins dict model, and the tree with the documented "
-        "paths. Confinement: 14 name spellings x {store, fetch, exists} x "
+        "paths. Names family: every single name and ordered pair of 10 "
+        "names with dots, nested directories and colons, looked up (all ten) "
+        "by readers of every layout. Confinement: 14 name spellings x {store, fetch, exists} x "
         "both accessor classes with a sentinel sibling directory. "
         "Non-trivial states: >= 2 names present or a name overwritten.")
 ASSUMPTIONS = [
+    "file names ending in '.gz' are outside the alphabet: 'X.gz' is by "
+    "design the path of a compressed 'X'",
     "reference model: dict name -> bytes, last write wins, store without "
     "overwrite on an existing name fails and changes nothing",
     "a name keeps its MIME type for its lifetime in the main family (a "
@@ -239,7 +243,8 @@ def run_history(cfg, history, col, case_base, check=True):
         t = tree(d)
         if check:
             observe(cfg, d, model, mimes, col, dict(case_base,
-                                                    history=history))
+                                                    history=history),
+                    names=case_base.get("names"))
         return t, model, overwritten
     finally:
         sandbox.rm(d)
@@ -250,15 +255,15 @@ def _mime_tag(mimes, name, op):
     return "mixed-mime" if len(seen) > 1 else "same-mime"
 
 
-def observe(cfg, d, model, mimes, col, case):
+def observe(cfg, d, model, mimes, col, case, names=None):
     from neuroglancer_scripts.accessor import DataAccessError
     mixed = any(len(v) > 1 for k, v in mimes.items()
                 if not (isinstance(k, tuple) and k and k[-1] == "last"))
     tag = "mixed-mime" if mixed else "same-mime"
     readers = [cfg] if cfg["cls"] == "sharded" else [
         dict(lay, cls="file", compresslevel=9) for lay in LAYOUTS]
-    names = list(FILE_NAMES) + ([("chunk",) + c for c in CHUNKS]
-                                if cfg["cls"] == "file" else [])
+    names = list(names or FILE_NAMES) + ([("chunk",) + c for c in CHUNKS]
+                                         if cfg["cls"] == "file" else [])
     for rc in readers:
         rd = make_accessor(d, rc)
         for name in names:
@@ -480,6 +485,39 @@ def _eval_confinement(col, cfg):
         sandbox.rm(parent)
 
 
+# names with dots, nested directories and colons; names ending in ".gz"
+# are left out: "X.gz" is by design where a compressed "X" is stored
+NAME_ALPHA = ["labels", "labels.v2", "seg.left.frag", "seg.left",
+              "a.b/c.d", "a.b/c", "mesh/7:0.x", "mesh/7:0", "v1.0/info",
+              "noext"]
+
+
+def names_family(cfg, col):
+    """every single name (2 MIME types) and every ordered pair of distinct
+    names from NAME_ALPHA stored through one configuration; all ten names
+    are then looked up by readers of every configuration (a name that was
+    never stored must not exist nor return data)"""
+    base = {"config": cfg, "family": "names", "names": NAME_ALPHA}
+    before = col.r["violation_count"]
+    runs = 0
+    for n1 in NAME_ALPHA:
+        for mime in ("application/octet-stream", "application/json"):
+            run_history(cfg, [["store_file", n1, 2, mime, False]], col, base)
+            runs += 1
+        for n2 in NAME_ALPHA:
+            if n2 != n1:
+                run_history(cfg, [
+                    ["store_file", n1, 2, "application/octet-stream", False],
+                    ["store_file", n2, 1, "application/octet-stream",
+                     False]], col, base)
+                runs += 1
+    col.r["states"] += runs
+    col.r["transitions"] += 2 * runs
+    col.r["traces"] += runs
+    bad = col.r["violation_count"] - before
+    col.ev(runs, runs, "names-ok" if not bad else "names-violating")
+
+
 def units(tier):
     depth = 3 if tier == "quick" else 4
     u = []
@@ -488,6 +526,8 @@ def units(tier):
                   "depth": depth})
         u.append({"kind": "bfs", "config": cfg, "family": "mixed-mime",
                   "depth": depth - 1})
+    for cfg in writer_configs():
+        u.append({"kind": "names", "config": cfg})
     u.append({"kind": "confinement"})
     return u
 
@@ -504,7 +544,12 @@ def space(tier):
 
 def run_unit(u):
     col = Collector()
-    if u["kind"] == "bfs":
+    if u["kind"] == "names":
+        names_family(u["config"], col)
+        col.sample({"config": u["config"], "family": "names",
+                    "history": [["store_file", "seg.left.frag", 2,
+                                 "application/octet-stream", False]]})
+    elif u["kind"] == "bfs":
         bfs(u["config"], u["family"], u["depth"], col)
         col.sample({"config": u["config"], "family": u["family"],
                     "history": menu(u["config"], u["family"])[:2]})
@@ -527,6 +572,8 @@ def replay(case):
                 and r["case"].get("op") == case["op"]]
     cfg = case["config"]
     base = {"config": cfg, "family": case.get("family")}
+    if case.get("names"):
+        base["names"] = case["names"]
     hist = case["history"]
     # intermediate states first (a store-level violation may be earlier)
     for n in range(1, len(hist)):
